@@ -7,6 +7,7 @@
    driver's oracle; in the model there is only one value per grant. *)
 From Coq Require Import String NArith List.
 From Verif Require Import Lib.Base Lib.PyStr Model.Sub Proofs.Sub_proofs.
+From Verif Require Gen.Src_sub Proofs.Src_refine.
 Import ListNotations.
 Open Scope string_scope.
 
@@ -64,3 +65,11 @@ Example C18_nonvacuous :
   sector_source r3 (PS "https://rp/cb") = PS "https://rp/cb" /\
   forallb is_hex (PS "diana") = false.
 Proof. vm_compute. repeat split; reflexivity. Qed.
+
+(* TIE BY TRANSLATION: public_id / pairwise_id as they read in /repo/src NOW (coq/Gen/Src_sub.v) hash exactly the
+   strings the model hashes (uid ++ salt, uid ++ sector ++ salt), with SHA-256. *)
+Theorem C18_sub_functions_are_source : forall H uid salt sector clock,
+  (exists d, sub_of (H (PS "sha256")) Public uid salt sector 0 = SHash d /\ Src_sub.public_id_src H (VStr uid) (VStr salt) clock = Ok (VStr d)) /\
+  (exists d, sub_of (H (PS "sha256")) Pairwise uid salt sector 0 = SHash d /\ Src_sub.pairwise_id_src H (VStr uid) (VStr sector) (VStr salt) clock = Ok (VStr d)).
+Proof. exact Src_refine.sub_of_is_source. Qed.
+Print Assumptions C18_sub_functions_are_source.
